@@ -30,6 +30,14 @@ pub fn observe_config(id: usize, mal: usize, tags: Vec<String>, j: Value, with_c
     Some(s) => (spdc_all_finite(s), spdc_json(s)),
     None => (vec![], Value::Null),
   };
+  // the refractive indices of the three beams of a constructed setup (each at its own centre frequency)
+  let indices = match &real.3 {
+    Some(s) => {
+      let ix = |b: &spdcalc::beam::Beam| match guarded_loc(|| *b.refractive_index(b.frequency(), &s.crystal_setup)) { Ok(x) => fx_or_null(x), Err(_) => json!("panic") };
+      json!({"signal": ix(&s.signal), "idler": ix(&s.idler), "pump": ix(&s.pump)})
+    }
+    None => Value::Null,
+  };
   // the JSON entry point (serde try_from): must agree with try_as_spdc
   let fj = guarded_loc(|| SPDC::from_json(&text));
   let from_json = match &fj {
@@ -41,27 +49,30 @@ pub fn observe_config(id: usize, mal: usize, tags: Vec<String>, j: Value, with_c
   if with_calls {
     if let Some(s) = &real.3 {
       if nonfinite.is_empty() {
-        calls = finite_calls(s);
+        calls = finite_calls(s, id);
       }
     }
   }
   json!({
     "kind": "cfg", "id": id, "mal": mal, "tags": tags, "json": j, "parse": "ok", "cfg": cfg_json(&cfg),
-    "shadow": sh, "real": {"class": real.0, "msg": real.1, "loc": real.2, "setup": setup, "nonfinite": nonfinite},
+    "shadow": sh, "real": {"class": real.0, "msg": real.1, "loc": real.2, "setup": setup, "nonfinite": nonfinite, "indices": indices},
     "from_json": from_json, "calls": calls,
   })
 }
 
 /// spectrum / rate / HOM calls on a small grid around the centre, inside the transmission window
-pub fn finite_calls(s: &SPDC) -> Value {
-  let integ = Integrator::Simpson { divs: 6 };
+pub fn finite_calls(s: &SPDC, variant: usize) -> Value {
+  // integrator and grid vary from call to call: Simpson with 6 / 10 divisions on 3x3 / 5x5 grids, and the library's DEFAULT
+  // integrator on every fourth setup
+  let integ = match variant % 4 { 0 => Integrator::Simpson { divs: 6 }, 1 => Integrator::Simpson { divs: 10 }, 2 => Integrator::Simpson { divs: 6 }, _ => Integrator::default() };
+  let npts = if variant % 2 == 0 { 3 } else { 5 };
   let win = s.crystal_setup.crystal.get_meta().transmission_range;
   let r = guarded_loc(|| {
     let ws0 = s.signal.frequency();
     let wi0 = s.idler.frequency();
     // +-0.2 % around the centres
-    let d = 0.002;
-    let fs = FrequencySpace::new((ws0 * (1. - d), ws0 * (1. + d), 3), (wi0 * (1. - d), wi0 * (1. + d), 3));
+    let d = if variant % 3 == 0 { 0.002 } else { 0.01 };
+    let fs = FrequencySpace::new((ws0 * (1. - d), ws0 * (1. + d), npts), (wi0 * (1. - d), wi0 * (1. + d), npts));
     let inside = match win {
       Some(w) => {
         let l = |w_: Frequency| *(utils::frequency_to_vacuum_wavelength(w_) / M);
@@ -77,7 +88,7 @@ pub fn finite_calls(s: &SPDC) -> Value {
     let cc = *(s.counts_coincidences(fs, integ) / HZ);
     let cs = *(s.counts_singles_signal(fs, integ) / HZ);
     let ci = *(s.counts_singles_idler(fs, integ) / HZ);
-    let hom = s.hom_rate_series(Steps(-1e-12 * S, 1e-12 * S, 3), fs, integ);
+    let hom = s.hom_rate_series(Steps(-1e-12 * S, 1e-12 * S, npts), fs, integ);
     let mut bad: Vec<&str> = vec![];
     if jsa.iter().any(|z| !z.re.is_finite() || !z.im.is_finite()) { bad.push("jsa"); }
     if jsi.iter().any(|z| !z.value_unsafe.is_finite()) { bad.push("jsi"); }
@@ -88,8 +99,13 @@ pub fn finite_calls(s: &SPDC) -> Value {
     if hom.iter().any(|z| !z.is_finite()) { bad.push("hom_rate_series"); }
     let bad_norm = jsn.iter().any(|z| !z.is_finite());
     let jsa_all_zero = jsa.iter().all(|z| z.re == 0. && z.im == 0.);
+    // the reference of the normalisation: the optimised setup's JSI at its own centre (exactly 0 makes every normalised value x/0)
+    let reference_zero = guarded_loc(|| {
+      let o = s.clone().try_as_optimum().ok()?;
+      Some(*(o.joint_spectrum(integ).jsi(o.signal.frequency(), o.idler.frequency()) / JSIUnits::new(1.)) == 0.)
+    }).ok().flatten();
     json!({"class": "ok", "inside_window": inside, "nonfinite": bad, "normalized_nonfinite": bad_norm, "jsa_all_zero": jsa_all_zero,
-           "cc": fx(cc), "cs": fx(cs), "ci": fx(ci)})
+           "reference_zero": reference_zero, "variant": variant, "grid": npts, "cc": fx(cc), "cs": fx(cs), "ci": fx(ci)})
   });
   match r {
     Ok(v) => v,
